@@ -136,95 +136,196 @@ def crashList (same old quant : Bool) (hl bl : Nat) : List (FS Bool) × Bytes :=
 
 def showOp : IoOp Bool → String
   | .create p => s!"create {if p then "tmp" else "path"}"
+  | .openKeep p => s!"open {if p then "tmp" else "path"}"
   | .write p bs => s!"write {if p then "tmp" else "path"} {bs.length}"
+  | .writeAt p off bs => s!"writeat {if p then "tmp" else "path"} {off} {bs.length}"
   | .fsync p => s!"fsync {if p then "tmp" else "path"}"
   | .rename a b => s!"rename {if a then "tmp" else "path"} {if b then "tmp" else "path"}"
 
-def snapStep (_ : Unit) (line : String) : Unit × String :=
-  let bad := ((), "bad-op")
+/-! a directory of two files (`true` = temp, `false` = the snapshot path) driven op by op: the
+    harness performs the same operations on a real directory (or runs the real save on it) and
+    compares what the directory holds after every step -/
+
+/-- tail-recursive hex decoding (snapshot files are tens of kilobytes) -/
+def unhexGo : List Char → List Nat → Option (List Nat)
+  | [], acc => some acc.reverse
+  | a :: b :: rest, acc =>
+    match hexDigit a, hexDigit b with
+    | some x, some y => unhexGo rest ((x * 16 + y) :: acc)
+    | _, _ => none
+  | _, _ => none
+
+def unhexBig (s : String) : Option Bytes := if s = "-" then some [] else unhexGo s.toList []
+
+/-- FNV-1a, 32 bit -/
+def fnv32 (bs : Bytes) : Nat := bs.foldl (fun h b => (Nat.xor h b * 16777619) % 4294967296) 2166136261
+
+def showFile : Option File → String
+  | none => "absent"
+  | some f => s!"{f.content.length}:{fnv32 f.content}"
+
+def pendingLen : Option File → Nat
+  | none => 0
+  | some f => f.pending.length
+
+def describeFs (st : FS Bool) : String :=
+  s!"tmp={showFile (st true)} path={showFile (st false)} unsynced={pendingLen (st true)}/{pendingLen (st false)}"
+
+def parsePathName (s : String) : Option Bool :=
+  if s = "tmp" then some true else if s = "path" then some false else none
+
+def parseFileArg (s : String) : Option (Option File) :=
+  if s = "absent" then some none else (unhexBig s).map (fun b => some ⟨b, []⟩)
+
+def parseFsOp : List String → Option (IoOp Bool)
+  | ["create", p] => (parsePathName p).map .create
+  | ["open", p] => (parsePathName p).map .openKeep
+  | ["write", p, h] =>
+    match parsePathName p, unhexBig h with
+    | some p, some b => some (.write p b)
+    | _, _ => none
+  | ["writeat", p, off, h] =>
+    match parsePathName p, off.toNat?, unhexBig h with
+    | some p, some off, some b => some (.writeAt p off b)
+    | _, _, _ => none
+  | ["fsync", p] => (parsePathName p).map .fsync
+  | ["rename", a, b] =>
+    match parsePathName a, parsePathName b with
+    | some a, some b => some (.rename a b)
+    | _, _ => none
+  | _ => none
+
+/-- the model's save sequence for a header / body (`quant`: one blob), truncating (`keep = false`, the
+    code) or not -/
+def saveSeq (quant keep : Bool) (hdr body : Bytes) : List (IoOp Bool) :=
+  match quant, keep with
+  | false, false => saveOps true false hdr body
+  | false, true => saveOpsKeep true false hdr body
+  | true, false => saveOpsQ true false (hdr ++ body)
+  | true, true => saveOpsQKeep true false (hdr ++ body)
+
+def snapStep (cur : FS Bool) (line : String) : FS Bool × String :=
+  let bad := (cur, "bad-op")
   match words line with
+  | ["fs_init", pathArg, tmpArg] =>
+    match parseFileArg pathArg, parseFileArg tmpArg with
+    | some pf, some tf =>
+      let st : FS Bool := fun p => if p then tf else pf
+      (st, describeFs st)
+    | _, _ => bad
+  | "fs_op" :: rest =>
+    match parseFsOp rest with
+    | some op => let st := applyOp cur op; (st, describeFs st)
+    | none => bad
+  | "fs_cut" :: k :: rest =>
+    -- the `k`-th state in which the machine can stop while the operation runs (`partials`)
+    match k.toNat?, parseFsOp rest with
+    | some k, some op =>
+      match partialAt cur op k with
+      | some st => (st, describeFs st)
+      | none => (cur, "none")
+    | _, _ => bad
+  | ["fs_save", quant, keep, hdr, body] =>
+    match parseBool quant, parseBool keep, unhexBig hdr, unhexBig body with
+    | some q, some k, some hdr, some body =>
+      let st := applyOps cur (saveSeq q k hdr body); (st, describeFs st)
+    | _, _, _, _ => bad
+  | ["fs_crash", quant, keep, hdr, body, i] =>
+    -- the `i`-th crash state of the model's save sequence started on the current directory
+    match parseBool quant, parseBool keep, unhexBig hdr, unhexBig body, i.toNat? with
+    | some q, some k, some hdr, some body, some i =>
+      match (crashStates cur (saveSeq q k hdr body))[i]? with
+      | some st => (st, describeFs st)
+      | none => (cur, "none")
+    | _, _, _, _, _ => bad
+  | ["fs_get"] => (cur, describeFs cur)
+  | ["ops_keep", quant, hl, bl] =>
+    match parseBool quant, hl.toNat?, bl.toNat? with
+    | some q, some hl, some bl =>
+      (cur, ";".intercalate ((saveSeq q true (List.replicate hl 0) (List.replicate bl 0)).map showOp))
+    | _, _, _ => bad
   | ["hdr_enc", m0, m1, m2, m3, v, f, c] =>
     match m0.toNat?, m1.toNat?, m2.toNat?, m3.toNat?, v.toNat?, f.toNat?, c.toNat? with
     | some m0, some m1, some m2, some m3, some v, some f, some c =>
-      ((), hex (encodeHeader ⟨m0, m1, m2, m3, v, f, c⟩))
+      (cur, hex (encodeHeader ⟨m0, m1, m2, m3, v, f, c⟩))
     | _, _, _, _, _, _, _ => bad
   | ["hdr_dec", h] =>
     match unhex h with
     | none => bad
     | some bs =>
       match decodeHeader bs with
-      | none => ((), "none")
+      | none => (cur, "none")
       | some (hd, rest) =>
-        ((), s!"{hd.m0},{hd.m1},{hd.m2},{hd.m3} {hd.version} {hd.flags} {hd.entryCount} {showValidate (validate hd)} c{if hd.isCompressed then 1 else 0} rest={rest.length}")
+        (cur, s!"{hd.m0},{hd.m1},{hd.m2},{hd.m3} {hd.version} {hd.flags} {hd.entryCount} {showValidate (validate hd)} c{if hd.isCompressed then 1 else 0} rest={rest.length}")
   | ["detect", h] =>
     match unhex h with
     | none => bad
-    | some bs => ((), match detectVersion bs with | .v2 => "v2" | .v3 => "v3")
+    | some bs => (cur, match detectVersion bs with | .v2 => "v2" | .v3 => "v3")
   | ["route", h] =>
     match unhex h with
     | none => bad
-    | some bs => ((), showRoute (route bs))
+    | some bs => (cur, showRoute (route bs))
   | ["validate", m0, m1, m2, m3, v] =>
     match m0.toNat?, m1.toNat?, m2.toNat?, m3.toNat?, v.toNat? with
     | some m0, some m1, some m2, some m3, some v =>
-      ((), match fromBytes (fun _ => some (⟨m0, m1, m2, m3, v, 0, 0⟩, ())) [] with
+      (cur, match fromBytes (fun _ => some (⟨m0, m1, m2, m3, v, 0, 0⟩, ())) [] with
         | .ok _ => "ok" | .error e => showErr e)
     | _, _, _, _, _ => bad
   | ["validate_c", m0, m1, m2, m3, v] =>
     match m0.toNat?, m1.toNat?, m2.toNat?, m3.toNat?, v.toNat? with
-    | some m0, some m1, some m2, some m3, some v => ((), showValidate (validateC m0 m1 m2 m3 v))
+    | some m0, some m1, some m2, some m3, some v => (cur, showValidate (validateC m0 m1 m2 m3 v))
     | _, _, _, _, _ => bad
   | ["tmpname", h] =>
     match strOfHex h with
     | none => bad
-    | some s => ((), hexOfStr (String.ofList (tmpName s.toList)))
+    | some s => (cur, hexOfStr (String.ofList (tmpName s.toList)))
   | ["ops", quant, hl, bl] =>
     match parseBool quant, hl.toNat?, bl.toNat? with
     | some q, some hl, some bl =>
       let ops : List (IoOp Bool) :=
         if q then saveOpsQ true false (List.replicate (hl + bl) 0)
         else saveOps true false (List.replicate hl 0) (List.replicate bl 0)
-      ((), ";".intercalate (ops.map showOp))
+      (cur, ";".intercalate (ops.map showOp))
     | _, _, _ => bad
   | ["crash_count", same, old, quant, hl, bl] =>
     match parseBool same, parseBool old, parseBool quant, hl.toNat?, bl.toNat? with
     | some same, some old, some q, some hl, some bl =>
-      ((), toString (crashList same old q hl bl).1.length)
+      (cur, toString (crashList same old q hl bl).1.length)
     | _, _, _, _, _ => bad
   | ["crash_at", same, old, quant, hl, bl, i] =>
     match parseBool same, parseBool old, parseBool quant, hl.toNat?, bl.toNat?, i.toNat? with
     | some same, some old, some q, some hl, some bl, some i =>
       let (sts, new) := crashList same old q hl bl
       match sts[i]? with
-      | none => ((), "none")
-      | some st => ((), describe new same st)
+      | none => (cur, "none")
+      | some st => (cur, describe new same st)
     | _, _, _, _, _, _ => bad
   | ["cval", tt, delta, key, field, v] =>
     match parseBool tt, parseBool delta, strOfHex key, strOfHex field, parseTValue v with
     | some tt, some delta, some key, some field, some v =>
       let c := compressValue ⟨tt, delta, true⟩ key.toList field.toList v
-      ((), showCValue c ++ " => " ++ showTValue (isTT c) (decompressValue id c))
+      (cur, showCValue c ++ " => " ++ showTValue (isTT c) (decompressValue id c))
     | _, _, _, _, _ => bad
   | ["c2t", c] =>
     match parseCValue c with
-    | some c => ((), showTValue (isTT c) (decompressValue id c))
+    | some c => (cur, showTValue (isTT c) (decompressValue id c))
     | none => bad
   | ["emb", ttok, v] =>
     match parseBool ttok, parseNats v with
     | some ttok, some v =>
       match fromDense (fun _ => ttok) v with
-      | .dense d => ((), "dense => " ++ showNats (toDense id (.dense d)))
-      | .sparse dim ps xs => ((), s!"sparse {showNats ps} => " ++ showNats (toDense id (.sparse dim ps xs)))
-      | .tt _ => ((), "tt => tt")
+      | .dense d => (cur, "dense => " ++ showNats (toDense id (.dense d)))
+      | .sparse dim ps xs => (cur, s!"sparse {showNats ps} => " ++ showNats (toDense id (.sparse dim ps xs)))
+      | .tt _ => (cur, "tt => tt")
     | _, _ => bad
   | ["casts", v] =>
     match parseNats v with
-    | some v => ((), showNats (v.map f32ToU64) ++ " " ++ showNats (v.map (fun x => u64ToF32 (f32ToU64 x))))
+    | some v => (cur, showNats (v.map f32ToU64) ++ " " ++ showNats (v.map (fun x => u64ToF32 (f32ToU64 x))))
     | none => bad
   | ["u2f", v] =>
     match parseNats v with
-    | some v => ((), showNats (v.map u64ToF32))
+    | some v => (cur, showNats (v.map u64ToF32))
     | none => bad
   | _ => bad
 
-def main : IO Unit := run snapStep ()
+def main : IO Unit := run snapStep (fun _ => none)
